@@ -72,6 +72,11 @@ pub fn gen_case(r: &mut Rng, max: usize) -> (Model, Vec<usize>, &'static str) {
         }
         return (m, src, fam);
     }
+    if r.below(64) == 0 {
+        let m = gen::fixture_weighted(r);
+        let src = gen::sources(r, m.n());
+        return (m, src, "repo_fixture_weighted");
+    }
     let (mm, ff) = gen::algo_digraph(r, max, 257);
     m = mm;
     fam = ff;
